@@ -33,7 +33,7 @@ type planFn func(rg *rand.Rand) (cfgT, runFn)
 type class struct {
 	name   string
 	plan   planFn
-	weight int // scenarios per 616 (the quick budget)
+	weight int // scenarios per 624 (the quick -n)
 	min    int
 }
 
@@ -47,6 +47,7 @@ var classes = []class{
 	{"coal", planCoal, 6, 3},
 	{"s1", planS1, 20, 4},
 	{"firstdial", planFirstDial, 10, 4},
+	{"straggler", planStraggler, 8, 8},
 }
 
 type job struct {
@@ -130,7 +131,7 @@ func main() {
 		if *only != "" && *only != cl.name {
 			continue
 		}
-		n := cl.weight * c.N / 616
+		n := cl.weight * c.N / 624
 		if n < cl.min {
 			n = cl.min
 		}
